@@ -110,6 +110,12 @@ def run(prog, check):
                                  'per-sector entries are stored under `%s`, which is unique only within a country: in a zone with several '
                                  'countries / regions the entries of equally named sectors overwrite each other' % unparse(k_),
                                  'two regions of one currency zone, each with a household HH')
+        from ._common import truncating_breaks
+        for lk_, g_, where_ in truncating_breaks(it):
+            check.ob('C04.R1', '%s::loop-visits-every-sector(%s)' % (ukey, lk_), False, where_,
+                     'the loop over %s is left at the first sector for which %s: the sectors declared after it are not counted in the market'
+                     % (lk_, ' and '.join(repr(x) for x in g_ if mentions_elem(x.key(), lk_)) or 'the test holds'),
+                     'a holder / demander declared after an object that fails the test (a tax flow, another market)')
         if not agg:
             check.ob('C04.R1', '%s::aggregates-demand' % ukey, False, m.where, 'no aggregation of sector demands into DEM_<market> found',
                      'any demander')
@@ -290,6 +296,14 @@ def run(prog, check):
         check.ob('C04.R4', '%s::MoneyMarket.G::default-money-demand' % mm.module.rel, ok, dflt[0].where if dflt else mm.module.rel,
                  'a sector without a money demand gets DEM_MON := its own F' if ok else 'default money demand is not the sector\'s own F',
                  'a model without asset allocation: money holdings = financial assets')
+    # a demand that only comes into existence while the equations are generated is invisible to a market generated before it: the
+    # clause C08.R1 decides for every variable a discovery loop looks for (here: the demand variables the markets aggregate)
+    if not getattr(check, '_borrowing', False):
+        from ..report import Borrowed
+        from . import C08 as _c08
+        b08 = Borrowed(check, lambda rule, key: rule == 'C08.R1' and '::creates(' in key, 'C04.R1',
+                       'the market declared before the sector whose demand variable is created late')
+        _c08.run(prog, b08)
     check.floor('C04.R1', 9)
     check.floor('C04.R2', 2)
     check.floor('C04.R3', 6)
